@@ -212,7 +212,7 @@ func Normalize(sk []SNode, kids []DNode) []DNode {
 }
 
 // Mutate returns a seeded variation of the data tree: a node deleted, a list entry
-// duplicated under the new key "9", a value appended to a leaf-list, or a list / leaf-list /
+// duplicated under the new key "11", a value appended to a leaf-list, or a list / leaf-list /
 // non-presence container (outside cases) left present but emptied.
 func Mutate(r *rand.Rand, sk []SNode, data []DNode) (string, []DNode) {
 	d := Clone(data)
@@ -244,7 +244,7 @@ func Mutate(r *rand.Rand, sk []SNode, data []DNode) (string, []DNode) {
 			}
 			dup := false
 			for _, e := range node.Kids {
-				if e.Name == "9" {
+				if e.Name == "11" {
 					dup = true
 				}
 			}
@@ -252,10 +252,10 @@ func Mutate(r *rand.Rand, sk []SNode, data []DNode) (string, []DNode) {
 				continue
 			}
 			e := Clone([]DNode{node.Kids[r.Intn(len(node.Kids))]})[0]
-			e.Name = "9"
+			e.Name = "11"
 			for i := range e.Kids {
 				if e.Kids[i].Name == st.s.Key {
-					e.Kids[i].Vals = []string{"9"}
+					e.Kids[i].Vals = []string{"11"}
 				}
 			}
 			node.Kids = append(node.Kids, e)
@@ -264,7 +264,7 @@ func Mutate(r *rand.Rand, sk []SNode, data []DNode) (string, []DNode) {
 			if st.s.Kind != "leaflist" {
 				continue
 			}
-			node.Vals = append(node.Vals, "9")
+			node.Vals = append(node.Vals, "11")
 			return "append-value " + st.s.Name, d
 		}
 	}
